@@ -163,12 +163,13 @@ def case_sphere_rot(case):
     dist = ov.great_circle(np.array([clat, clon]))
     edges = np.array([0.0, 0.6, 1.15, 1.75, 2.35, 3.2])
     if not np.any(np.abs(dist[:, None] - edges[None, :]) < 1e-6):
-        g0 = gs.vario_estimate([clat, clon], cv, edges * gsc, latlon=True, geo_scale=gsc, return_counts=True)
+        be = edges * gsc  # one array in the unit of geo_scale, used by all following estimations
+        g0 = gs.vario_estimate([clat, clon], cv, be, latlon=True, geo_scale=gsc, return_counts=True)
         exp, cnt = ov.unstructured(cv[None, :], edges, dist, "m")
         r.true("estimator's great-circle distances agree with spherical trigonometry", np.array_equal(g0[2], cnt) and np.allclose(g0[1], exp, rtol=1e-12, atol=1e-14), info={"g": g0[1].tolist(), "exp": exp.tolist()}, **extra)
         for M in rots[::5]:
             a, b = _rot_latlon(clat, clon, M)
-            g1 = gs.vario_estimate([a, b], cv, edges * gsc, latlon=True, geo_scale=gsc, return_counts=True)
+            g1 = gs.vario_estimate([a, b], cv, be, latlon=True, geo_scale=gsc, return_counts=True)
             r.true("lat-lon variogram invariant under rotations of the sphere", np.array_equal(g1[2], g0[2]) and np.allclose(g1[1], g0[1], rtol=1e-10, atol=1e-12), **extra)
     return r.done(outcome=[case["scale"], cls, variant])
 
